@@ -1,0 +1,10 @@
+//go:build verif
+
+package base
+
+// Verification hook (add-only, compiled with -tags verif only).
+
+// VerifS55Encryptors returns the encryptors of the chain in call order.
+func (chainEncryptor *ChainDataEncryptor) VerifS55Encryptors() []DataEncryptor {
+	return append([]DataEncryptor{}, chainEncryptor.encryptors...)
+}
